@@ -479,7 +479,7 @@ func c20Hist(r *Rand, width int, trim bool, bad bool, allowClose bool) string {
 func c20Gen(r *Rand, tier string) []string {
 	n := 2500
 	if tier == "thorough" {
-		n = 40000
+		n = 120000
 	}
 	var out []string
 	widths := []int{1, 2, 3, 4, 5, 8, 10, 20, 40, 80}
